@@ -186,6 +186,8 @@ class Exec:
             n = e['len']
             ek = T.kind(e['elem'])
             if ek == 'int':
+                if n > 65536:
+                    return SparseArr(n, 0)
                 return [0] * n
             return [self.zero(e['elem']) for _ in range(n)]
         if k in ('ptr', 'slice', 'map', 'iface', 'func', 'chan', 'unsafeptr', 'nil'):
@@ -268,8 +270,10 @@ class Exec:
         self.add(cond if d else z3.Not(cond))
         return d
 
-    def concretize(self, v, what, limit=64, width=64):
-        """Fork over every feasible value of v (at most `limit`); returns a Python int (unsigned repr)."""
+    def concretize(self, v, what, limit=64, maxval=None):
+        """Fork over the feasible values of v in increasing (unsigned) order; at most `limit` values and,
+        when maxval is given, only values <= maxval (the rest of the range is cut and recorded).
+        Returns a Python int (unsigned repr)."""
         v = simp(v)
         if not isinstance(v, z3.ExprRef):
             return v
@@ -277,33 +281,54 @@ class Exec:
             raise SpecFail()
         if self.lenient:
             raise Unsupported('symbolic value in init')
+        isint = z3.is_int(v)
+        lb, cnt = 0, 0
         if self.dpos < len(self.decisions):
             d = self.decisions[self.dpos]
             if isinstance(d, tuple) and d[0] == 'v':
                 self.dpos += 1
                 self.add(v == d[1])
                 return d[1]
-            if not (isinstance(d, tuple) and d[0] == 'nv'):
+            if not (isinstance(d, tuple) and d[0] == 'ge'):
                 raise RuntimeError('decision vector out of sync (concretize) at %s' % what)
-            excl = list(d[1])
+            lb, cnt = d[1], d[2]
             self.decisions = self.decisions[:self.dpos]
-        else:
-            excl = []
-        if len(excl) >= limit:
-            self.stats['cuts'] += 1
-            self.cut_notes.add('%s: more than %d values' % (what, limit))
-            raise PathEnd('cut', 'concretize %s: more than %d values' % (what, limit))
-        for k in excl:
-            self.add(v != k)
+        def ge(x):
+            return (v >= x) if isint else z3.UGE(v, z3.BitVecVal(x, v.size()))
+        def lt(x):
+            return (v < x) if isint else z3.ULT(v, z3.BitVecVal(x, v.size()))
+        if lb:
+            self.add(ge(lb))
         r = self.check()
         if r == z3.unknown:
             raise PathEnd('inconclusive', 'concretize unknown')
         if r == z3.unsat:
             raise PathEnd('infeasible')
-        m = self.solver.model()
-        k = m.eval(v, model_completion=True).as_long()
-        # prefer small values: try to find the minimum quickly for small domains
-        self.pending.append(self.decisions[:self.dpos] + [('nv', tuple(excl + [k]))])
+        if cnt >= limit:
+            self.stats['cuts'] += 1
+            self.cut_notes.add('%s: more than %d values' % (what.split(' blockchain.')[0], limit))
+            raise PathEnd('cut', 'concretize %s: more than %d values' % (what, limit))
+        m = self.solver.model().eval(v, model_completion=True).as_long()
+        # minimise by bisection
+        lo = lb
+        while lo < m:
+            mid = (lo + m) // 2
+            r = self.check(lt(mid + 1))
+            if r == z3.sat:
+                m2 = self.solver.model().eval(v, model_completion=True).as_long()
+                m = min(m2, mid)
+                if m2 <= mid:
+                    m = m2
+            elif r == z3.unsat:
+                lo = mid + 1
+            else:
+                raise PathEnd('inconclusive', 'concretize unknown')
+        k = m
+        if maxval is not None and k > maxval:
+            self.stats['cuts'] += 1
+            self.cut_notes.add('%s: values above %d not explored' % (what.split(' blockchain.')[0], maxval))
+            raise PathEnd('cut', 'concretize %s: value above %d' % (what, maxval))
+        self.pending.append(self.decisions[:self.dpos] + [('ge', k + 1, cnt + 1)])
         self.decisions = self.decisions[:self.dpos] + [('v', k)]
         self.dpos += 1
         self.add(v == k)
@@ -477,7 +502,7 @@ class Exec:
         if not path:
             return val if guard is None else self.ite_t(guard, val, cur, vt)
         c = path[0]
-        new = list(cur)
+        new = arr_copy(cur)
         if isinstance(c, SymIdx):
             for i in range(c.lo, c.hi):
                 g = c.term == z3.BitVecVal(i, 64)
@@ -860,14 +885,14 @@ class Exec:
         """write vals into slice s beginning at slice index start (no bounds check)"""
         if not vals:
             return
-        arr = list(self.slice_arr(s))
+        arr = arr_copy(self.slice_arr(s))
         arr[s.off + start:s.off + start + len(vals)] = vals
         self.heap[s.obj] = self._replace(self.heap[s.obj], s.base, arr)
 
     def _replace(self, cur, path, val):
         if not path:
             return val
-        new = list(cur)
+        new = arr_copy(cur)
         new[path[0]] = self._replace(cur[path[0]], path[1:], val)
         return new
 
@@ -944,7 +969,8 @@ class Exec:
             self.bounds(z3.And(z3.ULE(l, h), z3.ULE(h, m), z3.ULE(m, z3.BitVecVal(cap, 64))),
                         'slice bounds out of range ' + where)
             lo = self.concretize(lo, 'slice lo', 4096)
-            hi = self.concretize(hi, 'slice hi', 4096)
+            hi = self.concretize(hi, 'slice hi', 4096,
+                                 maxval=None if self.slice_split is None else lo + self.slice_split)
             mx = self.concretize(mx, 'slice max', 4096)
         else:
             if not (0 <= sval(lo, 64) <= sval(hi, 64) <= sval(mx, 64) <= cap):
@@ -1462,8 +1488,8 @@ class Exec:
             if self.alloc_bound is not None:
                 self.obligation(z3.ULE(cc, z3.BitVecVal(self.alloc_bound // esz, 64)), 'alloc', where,
                                 'allocation of cap*%d bytes within bound %d' % (esz, self.alloc_bound))
-            c = self.concretize(c, 'make cap ' + where, self.alloc_split)
-            n = self.concretize(n, 'make len ' + where, self.alloc_split)
+            c = self.concretize(c, 'make cap ' + where, 4096, maxval=self.alloc_split)
+            n = self.concretize(n, 'make len ' + where, 4096, maxval=self.alloc_split)
         else:
             if sval(n, 64) < 0 or sval(c, 64) < 0 or n > c or c * esz > (1 << 47):
                 raise PathEnd('panic', 'makeslice: len out of range ' + where)
@@ -1611,7 +1637,7 @@ class Exec:
         raise Unsupported('builtin ' + name)
 
     # ------------------------------------------------------------ base heap (package inits)
-    def build_base(self):
+    def build_base(self, adopt=None):
         T = self.T
         self.t_uint8 = T.by_str.get('uint8', T.by_str.get('byte'))
         self.t_int64 = T.by_str.get('int64')
@@ -1632,6 +1658,11 @@ class Exec:
         self.path_start_instrs = 0
         self.alloc_split = 64
         self._merged = None
+        if adopt is not None:
+            self.base_heap, self.base_globals, self.init_notes, ii = adopt
+            self.stats['init_instrs'] = ii
+            self.lenient = False
+            return
         self.lenient = True
         saved_steps = self.max_steps
         self.max_steps = 50_000_000
@@ -1664,6 +1695,7 @@ class Exec:
         self.observed = []
         self.alloc_bound = None
         self.alloc_split = 64
+        self.slice_split = None
         self.spec = False
         self._merged = None
         self.path_start_instrs = self.stats['instrs']
